@@ -43,7 +43,7 @@ def _case(draw):
 
 def drivers(tier):
     th = tier == 'thorough'
-    return [dict(kind='hyp', name='curated', strategy=_case(), examples=30000 if th else 2000)]
+    return [dict(kind='hyp', name='curated', strategy=_case(), examples=120000 if th else 10000)]
 
 
 def load_with_ncc(T, ncc):
